@@ -142,6 +142,7 @@ func init() {
 			g.pending = nil
 			return nil
 		},
+		"vWindow": func(fr *frame, args []Value) Value { return nil },
 		"vQuiesce": func(fr *frame, args []Value) Value {
 			g := fr.gor()
 			if g.id != 0 {
